@@ -382,3 +382,62 @@ const _: (/* Debugs */) = {
         }
     }
 };
+
+#[cfg(ohkami_verif)]
+#[doc(hidden)]
+/// verification hooks: build a final routing tree directly and run the real search on it
+pub mod __verif_tree {
+    use super::*;
+
+    #[repr(transparent)]
+    pub struct Tree(Node);
+
+    struct NoProc;
+    impl FangProcCaller for NoProc {
+        fn call_bite<'b>(&'b self, _: &'b mut Request) -> std::pin::Pin<Box<dyn crate::fang::SendOnNativeFuture<Response> + 'b>> {
+            Box::pin(async {Response::NotFound()})
+        }
+    }
+
+    /// `pattern`: `Some(bytes)` = `Pattern::Static(bytes)`, `None` = `Pattern::Param`
+    pub fn node(pattern: Option<&'static [u8]>, children: &'static [Tree]) -> Tree {
+        Tree(Node {
+            pattern: match pattern {
+                Some(s) => Pattern::Static(s),
+                None    => Pattern::Param,
+            },
+            proc:     crate::fang::BoxedFPC::from_proc(NoProc),
+            catch:    crate::fang::BoxedFPC::from_proc(NoProc),
+            // SAFETY: `Tree` is `repr(transparent)` over `Node`
+            children: unsafe {std::mem::transmute::<&'static [Tree], &'static [Node]>(children)},
+            #[cfg(feature="openapi")]
+            openapi_operation: None
+        })
+    }
+
+    pub struct Found {
+        pub hit:      bool,
+        /// address of the node `search_target` returned
+        pub node:     usize,
+        pub n_params: usize,
+        /// `(address, length)` of each captured param
+        pub params:   [(usize, usize); 2],
+    }
+
+    pub fn addr(tree: &Tree) -> usize {
+        &tree.0 as *const Node as usize
+    }
+    pub fn child(tree: &Tree, i: usize) -> &Tree {
+        unsafe {std::mem::transmute::<&Node, &Tree>(&tree.0.children[i])}
+    }
+
+    /// the real `Path::init_with_request_bytes` followed by the real `Node::search_target`;
+    /// `None` when the target is refused
+    pub fn search(tree: &Tree, target: &'static [u8]) -> Option<Found> {
+        let mut path = Path::uninit();
+        path.init_with_request_bytes(target).ok()?;
+        let (node, hit) = tree.0.search_target(&mut path);
+        let (n_params, params) = path.__verif_raw_params();
+        Some(Found { hit, node: node as *const Node as usize, n_params, params })
+    }
+}
